@@ -77,17 +77,20 @@ func (w *iw) Write(buf []byte) (int, error) {
 		lines = append([][]byte{{}}, lines...)
 	}
 	joined := bytes.Join(lines, w.prefix)
+	continued := w.partial
 	w.partial = joined[len(joined)-1] != '\n'
 
 	n, err := w.w.Write(joined)
 	if err != nil {
-		return actualWrittenSize(n, len(w.prefix), lines), err
+		return actualWrittenSize(n, len(w.prefix), lines, continued), err
 	}
 
 	return len(buf), nil
 }
 
-func actualWrittenSize(underlay, prefix int, lines [][]byte) int {
+// continued is true when the first line continues a line whose prefix was
+// written by an earlier call, i.e. it is not preceded by a prefix.
+func actualWrittenSize(underlay, prefix int, lines [][]byte, continued bool) int {
 	actual := 0
 	remain := underlay
 	for _, line := range lines {
@@ -95,7 +98,11 @@ func actualWrittenSize(underlay, prefix int, lines [][]byte) int {
 			continue
 		}
 
-		addition := remain - prefix
+		addition := remain
+		if !continued {
+			addition -= prefix
+		}
+		continued = false
 		if addition <= 0 {
 			return actual
 		}
@@ -105,7 +112,7 @@ func actualWrittenSize(underlay, prefix int, lines [][]byte) int {
 		}
 
 		actual += len(line)
-		remain -= prefix + len(line)
+		remain = addition - len(line)
 	}
 
 	return actual
